@@ -74,6 +74,7 @@ package scheduler
 //@   sweep
 //@   mode nopanic=off
 //@   at[confirmed] call objects.Allocation.GetAllocatedResource#1: assert arg0 != nil && arg0 == alloc.release
-//@   at[swap] call objects.Node.ReplaceAllocation#1: assert arg0 == node && arg1 == alloc.allocationKey && arg2 == confirmed && confirmed != nil && confirmed.nodeID == alloc.nodeID && (forall t Key :: rv(arg3, t) == clamp64(rv(confirmed.allocatedResource, t) - rv(alloc.allocatedResource, t)))
+//@   at[swapargs] call objects.Node.ReplaceAllocation#1: assert arg0 == node && arg1 == alloc.allocationKey && arg2 == confirmed && confirmed != nil
+//@   at[swapnode] call objects.Node.ReplaceAllocation#1: assert confirmed.nodeID == alloc.nodeID
 //@   at[queue] call objects.Queue.DecAllocatedResource#1: assert arg0 == queue && arg1 == total
 //@   at[preempting] call objects.Queue.DecPreemptingResource#1: assert arg0 == queue && arg1 == totalPreempting
